@@ -295,6 +295,17 @@ def child_main(chan, root, task, step, salt):
             if tasks:
                 files = io_util.get_filtered_by_element(files, tasks)
             out["ret"] = BackupManager(root).create_backup(files, backup_name=name)
+        elif kind == "backup_two":
+            # ONE manager object creates two backups whose file selections differ (task filters)
+            bm = BackupManager(root)
+            out["rets"] = []
+            for name, exclude, tasks in task[1]:
+                files = io_util.get_file_list(root, name_suffix=["events"], extensions=[".tsv"], exclude_dirs=list(exclude))
+                if tasks:
+                    files = io_util.get_filtered_by_element(files, list(tasks))
+                out["rets"].append(bm.create_backup(files, backup_name=name))
+            if len(task) > 2 and task[2]:
+                bm.restore_backup(task[2], task_names=[], verbose=False)      # ... and restores one of them
         elif kind == "backup_api_retry":
             # ONE manager object; an injected I/O error is caught by the caller, who calls create_backup on it again
             name, exclude, tasks = task[1], list(task[2]), list(task[3])
